@@ -23,7 +23,8 @@ RULE = ("2..5 real instances on one simulated link, 1..6 services of 1..3 types 
         "Non-trivial = at least 2 hosts, one browser and one registration took part.")
 ASSUMPTIONS = [
     "settling time 17 s after the last change (4th start-up query at ~14.1 s + 1.2 s protected answer + 0.5 s aggregation + "
-    "link delays); the horizon stays below 120 s after the last change so that C10's refresh logic is not involved",
+    "link delays); the horizon stays below 120 s after the last change so that C10's refresh logic is not involved, except "
+    "in the 'late browser' flavour, where nobody browses until browsers start 30 s .. 73 min after the last change",
     "services of a crashed host (no goodbye) are 'don't care' until their TTL would have run out",
     "instance names are unique across hosts (conflict handling is C09's subject)",
     "an update follows the previous announcement burst of that service by more than 1 s (cache-flush retires only records "
@@ -39,6 +40,7 @@ SETTLE = 17.0
 def generate(rng, tier):
     fixed = rng.random() < 0.15  # the fixed scenario of the single-loss enumeration sub-batch
     r2 = __import__("random").Random(7) if fixed else rng
+    late = (not fixed) and r2.random() < 0.15
     nh = r2.choice([2, 2, 3, 4, 5])
     hosts = [f"H{i}" for i in range(nh)]
     ntypes = r2.choice([1, 2, 3])
@@ -77,16 +79,24 @@ def generate(rng, tier):
             s2["props"] = {"ver": "2"}
             if r2.random() < 0.3:
                 s2["addrs"] = [f"10.77.{len(ops) % 250}.{r2.randrange(1, 250)}"]  # the host moved to another address
-            if r2.random() < 0.25:
+            # (not in the late flavour: a query answered with the old TXT less than a second before the update leaves
+            # both generations cached - RFC 6762 10.2 - and after two minutes only the long-lived old one)
+            if r2.random() < 0.25 and not late:
                 s2["other_ttl"] = 120  # the new version is advertised with a much shorter TTL than the one it replaces
             # an update follows the previous announcement burst (ends tdone + 0.45 s) by more than one second: the
             # cache-flush bit only retires records received more than 1 s ago (RFC 6762 10.2)
-            tu = round(tdone + r2.choice([0.1, 0.3, 1.6, 2.0, 3.0, 8.0]) + r2.random() * r2.choice([0.1, 1.0]), 6)
+            # (in the late flavour only slow updates: after a fast one both generations stay cached, and hours later
+            # the one with the longer TTL is the one left, whichever it is)
+            tu = round(tdone + r2.choice([1.6, 2.0, 3.0, 8.0] if late else [0.1, 0.3, 1.6, 2.0, 3.0, 8.0]) +
+                       r2.random() * r2.choice([0.1, 1.0]), 6)
             ops.append({"t": tu, "op": "update", "h": h, "svc": s2})
-            if r2.random() < 0.35:
+            if r2.random() < 0.35 and not late:
                 # ... and back to the first version shortly afterwards (a state that flips: on, off, on)
                 ops.append({"t": round(tu + r2.choice([0.3, 0.8, 1.5, 3.0]), 6), "op": "update", "h": h, "svc": dict(s)})
-    nb = r2.choice([1, 2, 3, 4])
+    # late flavour: nobody browses while the services come and go; much later - when the pointers the hosts cached from
+    # the announcements are fresh, past half of their TTL, or expired and purged - browsers start and have to report
+    # exactly what is registered then (from their cache, or from the answers to their own start-up queries)
+    nb = 0 if late else r2.choice([1, 2, 3, 4])
     for i in range(nb):
         h = r2.choice(hosts)
         ops.append({"t": round(r2.choice([0.01, 0.3, 1.0, 4.0, 9.0, 15.0]) + r2.random() * 0.3, 6), "op": "browse", "h": h,
@@ -108,6 +118,16 @@ def generate(rng, tier):
     for o in ops:
         if o["op"] != "host" and "h" in o and t_up[o["h"]] > 0:
             o["t"] = round(t_up[o["h"]] + 0.01 + o["t"], 6)  # shifted as a block: the order of this host's ops is kept
+    if late:
+        t_last = max(o["t"] for o in ops) + 1.0
+        # (offsets keep clear of the ten seconds between the expiry of a cached pointer and its purge for every TTL in
+        # use - 1125 s floor, 1200, 2000, 4500, 9000 - whatever instant within the first minute it was received at:
+        # C04 excludes browsers created in that state, and so does this generator)
+        off = r2.choice([30.0, 300.0, 620.0, 1050.0, 2300.0, 3000.0, 4400.0])
+        for i in range(r2.choice([1, 2])):
+            ops.append({"t": round(t_last + off + i * r2.choice([0.0, 0.5, 3.0]), 6), "op": "browse", "h": r2.choice(hosts),
+                        "id": f"late{i}", "types": r2.sample(types, r2.choice([1, min(2, ntypes)])),
+                        "lookup_on_add": 3000 if r2.random() < 0.5 else None})
     ops.sort(key=lambda o: o["t"])
     # nothing is asked of an instance once its close() has been called
     closing = {o["h"]: o["t"] for o in ops if o["op"] == "close"}
